@@ -158,6 +158,35 @@ fn plain_query(r: &mut StdRng) -> Q {
   }
 }
 
+/// A surface word of some stored document (so that queries match), else a vocabulary word.
+fn corpus_word(r: &mut StdRng, cx: &Ctx) -> String {
+  let docs: Vec<&Value> = cx.b.versions.values().collect();
+  for _ in 0..4 {
+    let d = *pick(r, &docs);
+    let f = *pick(r, &["body", "body", "title"]);
+    if let Some(t) = d.get(f).and_then(|v| v.as_str()) {
+      let ws: Vec<&str> = t.split_whitespace().collect();
+      if !ws.is_empty() {
+        return pick(r, &ws).to_string();
+      }
+    }
+  }
+  xword(r)
+}
+
+/// match_all, a term or a query_string over words that occur in the corpus.
+fn frequent_query(r: &mut StdRng, cx: &Ctx) -> Q {
+  match r.gen_range(0..6) {
+    0 => Q::All,
+    1 | 2 => Q::Term { field: pick(r, &["body", "body", "title"]).to_string(), value: corpus_word(r, cx), boost: None },
+    _ => {
+      let n = r.gen_range(1..=3);
+      let terms = (0..n).map(|_| QsTerm { field: None, word: corpus_word(r, cx) }).collect();
+      Q::QueryString { terms, nots: vec![], phrases: vec![], fields: None, boost: None }
+    }
+  }
+}
+
 // ------------------------------------------------------------------------------------------------
 // C18: collapse + inner hits
 // ------------------------------------------------------------------------------------------------
@@ -314,6 +343,112 @@ fn case_collapse(case: &Value, r: &mut StdRng, scn: usize, out: &mut Vec<Value>)
   Ok(finish_scn(out, scn, "collapse-case", cx, vec![ev]))
 }
 
+// ------------------------------------------------------------------------------------------------
+// C19: rescore
+// ------------------------------------------------------------------------------------------------
+
+fn mode_rescore(r: &mut StdRng, scn: usize, n_req: usize, out: &mut Vec<Value>) -> Result<usize> {
+  let mut knobs = Knobs::default();
+  knobs.nested = false;
+  knobs.n_docs = (6, 22);
+  // the absolute score oracle (Rank.tla BM25) applies to corpora without deletions
+  let absolute = chance(r, 2, 3);
+  knobs.deletions = !absolute;
+  let storage = storage_kind(r);
+  let b = build_index(r, &knobs, storage)?;
+  let mut cx = open_ctx(b, storage, scn)?;
+  let main_cfg = GenCfg { depth: 2, boosts: true, scoring_wrappers: true, filters_in_bool: true, expansions: true, nested_filters: false };
+  let rq_cfg = GenCfg { depth: 1, boosts: true, scoring_wrappers: false, filters_in_bool: true, expansions: false, nested_filters: false };
+  let cover = cx.n_slots + 5;
+  let mut searches = Vec::new();
+  for _ in 0..n_req {
+    let q = match r.gen_range(0..6) {
+      0..=2 => frequent_query(r, &cx),
+      3 => plain_query(r),
+      _ => {
+        let d = r.gen_range(0..=main_cfg.depth);
+        gen_query(r, d, &main_cfg)
+      }
+    };
+    let filt = if chance(r, 1, 6) { Some(gen_filter(r, 1, false, "")) } else { None };
+    let sort = if chance(r, 3, 4) { vec![] } else { gen_sort(r) };
+    let exec = *pick(r, &["bm25", "wand", "bmw"]);
+    let mut base_req = base_request(&q, filt.as_ref(), cover, exec);
+    base_req["sort"] = render_sort(&sort);
+    let base = run_search(&cx.reader, &base_req);
+    let n_base = base.as_ref().map(|x| x.hits.len()).unwrap_or(0);
+    // the rescore query: a plain query tree, optionally under function_score{functions: [], min_score}
+    let inner = if chance(r, 2, 3) {
+      match frequent_query(r, &cx) {
+        Q::All if chance(r, 2, 3) => Q::Term { field: "body".into(), value: corpus_word(r, &cx), boost: None },
+        x => x,
+      }
+    } else {
+      let d = r.gen_range(0..=rq_cfg.depth);
+      gen_query(r, d, &rq_cfg)
+    };
+    // directed class: small constant scores per `cat` value, so that window hits are scored down
+    // (modes min / multiply) or fall below min_score while later hits keep higher scores
+    let directed = chance(r, 1, 4);
+    let inner = if directed {
+      let mut cats: Vec<&str> = KW_CATS.to_vec();
+      let n = r.gen_range(2..=3);
+      let mut should = Vec::new();
+      for _ in 0..n {
+        let c = cats.swap_remove(r.gen_range(0..cats.len()));
+        should.push(Q::ConstantScore { filter: F::KwEq("cat".into(), c.to_string()), boost: Some(*pick(r, &[0.01f32, 0.05, 0.2, 0.5])) });
+      }
+      Q::Bool { must: vec![], should, must_not: vec![], filter: vec![], msm: None, boost: None }
+    } else {
+      inner
+    };
+    let min_score: Option<f32> = if directed {
+      Some(*pick(r, &[0.03f32, 0.1, 0.3]))
+    } else if chance(r, 1, 2) { Some(*pick(r, &[0.25f32, 0.5, 0.75, 1.0, 1.25, 1.5, 2.0])) } else { None };
+    let rq_json = match min_score {
+      Some(m) => json!({"type": "function_score", "query": render_query(&inner), "functions": [], "min_score": m}),
+      None => render_query(&inner),
+    };
+    let inner_abs = abstract_query(&cx.b.schema, &inner, &all_text_fields(), true, 1.0, &mut cx.dict);
+    let rq_abs = match min_score {
+      Some(m) => json!({"k": "fsmin", "q": inner_abs, "min": (m as f64 * 10000.0).round() as i64}),
+      None => inner_abs,
+    };
+    let window = match r.gen_range(0..6) {
+      0 => 0,
+      1 => n_base + r.gen_range(0..=5),
+      _ => r.gen_range(0..=n_base.max(1) + 1),
+    };
+    let mode = if directed { *pick(r, &["min", "multiply"]) } else { *pick(r, &["total", "multiply", "sum", "max", "min", ""]) };
+    let mut rescore = json!({"window_size": window, "query": rq_json});
+    if !mode.is_empty() {
+      rescore["score_mode"] = json!(mode);
+    }
+    let mut req = base_req.clone();
+    req["rescore"] = rescore.clone();
+    let res = run_search(&cx.reader, &req);
+    // the same rescored request under a small limit
+    let small_limit = r.gen_range(1..=6);
+    let has_small = chance(r, 1, 2);
+    let small = if has_small {
+      let mut sreq = req.clone();
+      sreq["limit"] = json!(small_limit);
+      obs_full(&run_search(&cx.reader, &sreq))
+    } else {
+      obs_full(&Err("not run".to_string()))
+    };
+    searches.push(json!({
+      "ev": "search", "check": "rescore", "prop": "C19", "absolute": absolute, "exec": exec,
+      "window": window, "mode": if mode.is_empty() { "total" } else { mode }, "rq": rq_abs,
+      "sort": abstract_sort(&sort), "limit": cover,
+      "base": obs_full(&base), "obs": obs_full(&res),
+      "small": {"has": has_small, "limit": small_limit, "obs": small},
+      "req": req.to_string(),
+    }));
+  }
+  Ok(finish_scn(out, scn, "rescore", cx, searches))
+}
+
 pub fn main(args: &Args) -> Result<()> {
   let mode = args.str("mode", "collapse");
   if mode == "adhoc" {
@@ -355,6 +490,7 @@ pub fn main(args: &Args) -> Result<()> {
       let mut evs = Vec::new();
       total += match mode.as_str() {
         "collapse" => mode_collapse(&mut r, scn, n_req, &mut evs)?,
+        "rescore" => mode_rescore(&mut r, scn, n_req, &mut evs)?,
         other => anyhow::bail!("unknown extras mode {other}"),
       };
       scenarios += 1;
